@@ -92,6 +92,20 @@ theorem environment_irrelevant (a : Args) (w : World) (t : Int × Nat) (now' : I
     simp [configOf, targetsOf, h]
   simp [run, contentOf, resultOf, configMissing, hc]
 
+/-- with `--output` nothing is printed -/
+theorem output_given_stdout_empty (a : Args) (w : World) (p : List Char) (ho : a.output = some p) :
+    (run a w).stdout = [] := by
+  unfold run
+  cases contentOf a w with
+  | none => rfl
+  | some content =>
+    simp only
+    split
+    · rfl
+    · cases resultOf a w content with
+      | error e => rfl
+      | ok out => simp [ho]
+
 /-- (vi) a file that cannot be opened - the input or the target config file - ends the run with status 101, nothing on
     standard output and no file written (the output file is not even created) -/
 theorem missing_file_fails (a : Args) (w : World)
